@@ -28,7 +28,7 @@ structure St where
   vt    : VT := {}
   vt0   : VModes := {}
   lg    : Ghost := {}
-  ua    : Int := 1
+  ua    : Option Int := none
   inContract : Bool := true
 
 /-! ### printing / parsing -/
@@ -222,7 +222,7 @@ def step (_st : St) (ts : List String) (impl : String) : St × String × String 
     match parseImpl impl with
     | none => (st1, modelObs b.1 none b.2, "unparsable implementation observation")
     | some obs =>
-      let st2 := { st1 with vt := st1.vt.feed obs.out, ua := obs.ua.getD 1 }
+      let st2 := { st1 with vt := st1.vt.feed obs.out, ua := obs.ua }
       (st2, modelObs b.1 none b.2, specAfter st2 "build" obs)
   | _ =>
     match st.sys with
@@ -249,7 +249,7 @@ def step (_st : St) (ts : List String) (impl : String) : St × String × String 
           | none => (st1, m, "unparsable implementation observation")
           | some obs =>
             let st2 := ghostStep st1 op obs.ret
-            let st3 := { st2 with vt := st2.vt.feed obs.out, ua := obs.ua.getD st2.ua }
+            let st3 := { st2 with vt := st2.vt.feed obs.out, ua := obs.ua }
             (st3, m, specAfter st3 (ts.head?.getD "?") obs)
 
 def engine : Engine := { σ := St, init := {}, step := step }
